@@ -14,7 +14,7 @@ import sys
 
 from .. import core, gapspace as g, obs
 
-ALPHA = ["{", "}", "[", "]", "(", ")", ";", ",", ":", "@", "=", ".", "?", "!", "-", "+", "++", "//", "let", "in", "if", "then", "else", "with", "assert", "rec", "inherit", "or", "x", "1", '"s"', "''s''", "./p", "# c\n", "/*c*/", "${"]
+ALPHA = ["{", "}", "[", "]", "(", ")", ";", ",", ":", "@", "=", ".", "?", "!", "-", "+", "++", "//", "let", "in", "if", "then", "else", "with", "assert", "rec", "inherit", "or", "x", "1", '"s"', "''s''", "./p", "# c\n", "/*c*/", "${", "/*c*/ /*d*/"]  # last: two block comments on one line, as one token
 INSERT = ["{", "}", "[", "]", "(", ")", ";", ",", ":", "@", "=", ".", "?", "!", "-", "++", "let", "in", "if", "then", "else", "with", "assert", "rec", "inherit", "or", "x", '"', "''", "${", "/*"]
 WRAPS = [("", ""), ("\n", ""), ("  ", "  "), ("\t\n", "\n\n"), ("\r\n ", " \r\n"), ("", "\r\n\r\n"), ("\x0c\n", "\n\x0b\n\n")]
 VALID_DOC = "{ b = 2; }\n"
